@@ -263,6 +263,42 @@ theorem wire_fields (c : Cfg) (m : Msg) (nts : Str) :
     ∧ header (notifyHeaders c nts m) "nts".toList = nts := by
   refine ⟨rfl, rfl, rfl, rfl, rfl, rfl, rfl, rfl⟩
 
+/-- **one LOCATION for the whole tree**: every search answer (on behalf of the root, an embedded
+    device or a service, for any target and either option setting), every `ssdp:alive` and every
+    `ssdp:byebye` of a model run carries, as observed field and as LOCATION header on the wire, the
+    ROOT description URL `baseUri ++ deviceUrl` — the model has no other URL to offer: an embedded
+    device's own `DeviceInfo.url` does not enter (the harness generates trees where it differs, is
+    empty or relative, and the judge compares every datagram's LOCATION with the root description
+    URL, which is also where the listener must file the device) -/
+theorem location_is_root_description (k : Consts) (cfg : Cfg) (target : Str) (t : DevTree)
+    (searches : List SearchIn) (ann : Option AnnIn) :
+    (runCase k cfg target t searches ann).location = cfg.baseUri ++ cfg.deviceUrl ∧
+    (∀ m ∈ (runCase k cfg target t searches ann).responses ++ (runCase k cfg target t searches ann).alives
+          ++ (runCase k cfg target t searches ann).byebyes, m.location = cfg.baseUri ++ cfg.deviceUrl) ∧
+    (∀ (m : Msg) (nts : Str), header (responseHeaders cfg m) "location".toList = cfg.baseUri ++ cfg.deviceUrl
+        ∧ header (notifyHeaders cfg nts m) "location".toList = cfg.baseUri ++ cfg.deviceUrl) := by
+  refine ⟨rfl, ?_, fun m nts => ⟨rfl, rfl⟩⟩
+  intro m hm
+  simp only [List.mem_append] at hm
+  rcases hm with (hm | hm) | hm
+  · simp only [runCase, List.mem_flatMap, sendsOf, List.mem_map] at hm
+    obtain ⟨i, _, s, _, rfl⟩ := hm
+    rfl
+  · cases ann with
+    | none => simp [runCase] at hm
+    | some a =>
+      simp only [runCase, List.mem_map] at hm
+      obtain ⟨s, _, rfl⟩ := hm
+      rfl
+  · cases ann with
+    | none => simp [runCase] at hm
+    | some a =>
+      simp only [runCase] at hm
+      split at hm
+      · obtain ⟨m', _, rfl⟩ := List.mem_map.mp hm
+        rfl
+      · simp at hm
+
 /-! ### the whole property -/
 
 /-- **C13**: for every well-formed device tree, every list of requests (any request line, MAN, ST,
